@@ -82,7 +82,19 @@ func (r *Reader) readXRef() (map[uint32]*xRefEntry, Dict, error) {
 		var ref Reference
 		switch {
 		case bytes.Equal(buf, []byte("xref")):
-			dict, err = readXRefTable(xref, s)
+			// The "table starts at 1" repair of decodeXRefSection is meant
+			// for files whose only section is mis-numbered.  A section with
+			// /Prev may legitimately begin with the subsection "1 n" and the
+			// entry "0000000000 65535 f", so read the trailer first.
+			dict, err = readXRefTable(make(map[uint32]*xRefEntry), s, false)
+			if err != nil {
+				return nil, nil, Wrap(err, fmt.Sprintf("table at byte %d", start))
+			}
+			s, err = r.scannerFrom(start, false)
+			if err != nil {
+				return nil, nil, err
+			}
+			dict, err = readXRefTable(xref, s, dict["Prev"] == nil)
 			if err != nil {
 				return nil, nil, Wrap(err, fmt.Sprintf("table at byte %d", start))
 			}
@@ -147,7 +159,7 @@ func (r *Reader) readXRef() (map[uint32]*xRefEntry, Dict, error) {
 	return xref, trailer, nil
 }
 
-func readXRefTable(xref map[uint32]*xRefEntry, s *scanner) (Dict, error) {
+func readXRefTable(xref map[uint32]*xRefEntry, s *scanner, allowRepair bool) (Dict, error) {
 	err := s.SkipString("xref")
 	if err != nil {
 		return nil, err
@@ -187,10 +199,12 @@ func readXRefTable(xref map[uint32]*xRefEntry, s *scanner) (Dict, error) {
 			return nil, err
 		}
 
-		err = decodeXRefSection(xref, s, uint32(start), uint32(start+length))
+		err = decodeXRefSection(xref, s, uint32(start), uint32(start+length), allowRepair)
 		if err != nil {
 			return nil, err
 		}
+		// only the first subsection of a table can be the mis-numbered one
+		allowRepair = false
 		err = s.SkipWhiteSpace()
 		if err != nil {
 			return nil, err
@@ -212,7 +226,7 @@ func readXRefTable(xref map[uint32]*xRefEntry, s *scanner) (Dict, error) {
 	return s.ReadDict()
 }
 
-func decodeXRefSection(xref map[uint32]*xRefEntry, s *scanner, start, end uint32) error {
+func decodeXRefSection(xref map[uint32]*xRefEntry, s *scanner, start, end uint32, allowRepair bool) error {
 	offByOne := uint32(0)
 	for i := start; i < end; i++ {
 		if xref[i] != nil {
@@ -249,7 +263,7 @@ func decodeXRefSection(xref map[uint32]*xRefEntry, s *scanner, start, end uint32
 		}
 
 		// fix an error seen in some PDF files
-		if i == start && start == 1 && a == 0 && b == maxGeneration {
+		if allowRepair && i == start && start == 1 && a == 0 && b == maxGeneration {
 			offByOne = 1
 		}
 
